@@ -9,8 +9,8 @@ the original had"):
   (P) the padding is uniformly formatted, and every attribute it carries is held, with that value, by every run of the original that
       has characters - so nothing is shown that no character had.
 The bodies are verified over the contracts of shared_atts (C14), new_with_atts_removed (C14), __add__/__radd__ (C06), FmtStr.s and
-an ASSUMED contract of fmtstr(blanks, **atts) (parse_args on attributes that were read from existing runs: the run of blanks carries
-exactly those attributes, or ValueError) - parse_args is reflection/table driven and decided by C14's bounded suite."""
+the contract of fmtstr(blanks, **atts) (the run of blanks carries exactly those attributes, or ValueError), which is itself verified
+on the real fmtstr + parse_args for every set of attribute keys (complete finite split, end of this file; run under C14)."""
 import z3
 from pyvc import terms as T
 from pyvc import spec as S
@@ -70,9 +70,8 @@ fmtstr_kw = Contract(M + "fmtstr#attributes", "C14", ["string", "**kwargs"], sha
                      requires=_blank_or_plain,
                      raises={"ValueError": "may"},
                      result=_fmtstr_kw_result,
-                     doc="ASSUMED callee form: fmtstr(s, **atts) for s free of ESC[ and attribute values read from existing runs is "
-                         "FmtStr(Chunk(s, atts)) or raises ValueError; parse_args is decided by the bounded suite of C14")
-fmtstr_kw.assumed = True
+                     doc="callee form: fmtstr(s, **atts) for s free of ESC[ and attributes in the Atts encoding is FmtStr(Chunk(s, atts)) or "
+                         "raises ValueError; VERIFIED for every key set by the complete finite split fmtstr#attributes_* below (C14)")
 
 
 # ------------------------------------------------------------------ spec functions local to this file
@@ -181,3 +180,53 @@ def _mk(name, left):
 ljust = _mk("ljust", True)
 rjust = _mk("rjust", False)
 CONTRACTS = [ljust, rjust]
+
+
+# ------------------------------------------------------------------ fmtstr(plain string, **attributes): the body behind the callee form above
+#   Complete finite split over WHICH keys are present (2^8 key sets; values symbolic in the Atts encoding): the real fmtstr with the
+#   real parse_args inlined returns one run with the text and exactly those attributes, and raises ValueError iff fg / bg is not a
+#   colour code of the tables (read from the real module on every run).  This is what the callee form promises ("... or ValueError").
+from pyvc.contract import StrT, ConstT, AttsDictT
+
+
+def _color_values():
+    import importlib
+    tf = importlib.import_module("curtsies.termformatconstants")
+    return sorted(set(tf.FG_COLORS.values())), sorted(set(tf.BG_COLORS.values()))
+
+
+def _bad_color(a):
+    fgs, bgs = _color_values()
+    kw = a._raw["kwargs"]
+    d = a._st.deref(kw).items if hasattr(a, "_st") and not isinstance(kw, dict) else a.kwargs
+    conds = []
+    for k, vals in (("fg", fgs), ("bg", bgs)):
+        if k in d:
+            v = d[k].t if isinstance(d[k], Sym) else d[k]
+            conds.append(Not(Or(*[v == x for x in vals])) if z3.is_expr(v) else (v not in vals))
+    if not conds:
+        return False
+    return Or(*conds) if any(z3.is_expr(c) for c in conds) else any(conds)
+
+
+def _kw_body_ensures(a, r):
+    d = a.kwargs
+    at = alpha({k: (v.t if isinstance(v, Sym) else v) for k, v in d.items()}) if isinstance(d, dict) else d
+    st = getattr(a, "final_state", None)
+    if st is not None:
+        st.add_index(z3.IntVal(0))          # the single run of the result
+    return [("post.one_run_with_exactly_the_given_attributes", r == T.FmtS.mkfmt(z3.Unit(T.ChunkS.mkchunk(a.string, at))))]
+
+
+def fmtstr_kw_bodies(tier):
+    import itertools
+    out = []
+    sizes = range(0, 9)             # all 256 key sets in both tiers (960 obligations, about 10 s)
+    for n in sizes:
+        for ks in itertools.combinations(ATT_KEYS, n):
+            c = Contract(M + "fmtstr#attributes_" + ("_".join(ks) if ks else "none"), "C14", ["string", "*args", "**kwargs"],
+                         shapes=[Shape("keys_" + ("_".join(ks) if ks else "none"), dict(string=StrT(plain=True), args=ConstT(()), kwargs=AttsDictT(ks)))],
+                         raises={"ValueError": _bad_color}, ensures=_kw_body_ensures, result=FmtT())
+            c.inline = {"parse_args": "formatstring:parse_args"}
+            out.append(c)
+    return out
